@@ -100,6 +100,23 @@ class NF:
 
 
 @labtech.task
+class NT:
+    """Transforming (non-idempotent) context filter: derives and renames values."""
+    name: str
+    one: Any = None
+    many: Any = ()
+    named: Any = None
+    p: Any = None
+
+    def filter_context(self, context):
+        return {'depth': context.get('depth', 0) + 1, 'mine': context.get(f'for_{self.name}', context.get('shared')),
+                'n_keys': len(context)}
+
+    def run(self):
+        return run_body(self)
+
+
+@labtech.task
 class NP:
     """post_init derives an attribute that run() reports."""
     name: str
@@ -184,8 +201,8 @@ class NSJ:
         return run_body(self)
 
 
-TYPES = {c.__name__: c for c in (NA, NB, NC, ND, NN, NJ, NF, NP, NAX, NS, NSJ, NM, NK)}
-MAX_PARALLEL = {'NM': 2, 'NK': 1, 'NS': None, 'NSJ': None, 'NA': None, 'NB': 1, 'NC': 2, 'ND': 3, 'NN': None, 'NJ': None, 'NF': None, 'NP': None, 'NAX': None}
+TYPES = {c.__name__: c for c in (NA, NB, NC, ND, NN, NJ, NF, NP, NAX, NS, NSJ, NM, NK, NT)}
+MAX_PARALLEL = {'NT': None, 'NM': 2, 'NK': 1, 'NS': None, 'NSJ': None, 'NA': None, 'NB': 1, 'NC': 2, 'ND': 3, 'NN': None, 'NJ': None, 'NF': None, 'NP': None, 'NAX': None}
 UNCACHED = {'NN', 'NM'}
 
 
@@ -195,6 +212,8 @@ def filter_ctx(tname, name, ctx):
         return None
     if tname == 'NF':
         return {k: v for k, v in ctx.items() if k in ('shared', f'for_{name}')}
+    if tname == 'NT':
+        return {'depth': ctx.get('depth', 0) + 1, 'mine': ctx.get(f'for_{name}', ctx.get('shared')), 'n_keys': len(ctx)}
     return ctx
 
 
